@@ -269,7 +269,7 @@ impl LruT {
 //@end
 
 // ---- Lru::pop: the victim is the oldest low-priority record, else the oldest record of the pool; never a held one
-//@region foyer-memory/src/eviction/lru.rs :: impl~^impl<K, V, P> Eviction for Lru<K, V, P>/fn pop name=lru_pop whole=1 rules=assert-eq,option-or-else sub=@let state = unsafe \{ &mut \*record\.state\(\)\.get\(\) \};@@ subopt=@assert!\(!state\.link\.is_linked\(\)\);@@ sub=@if state\.in_high_priority_pool \{@if self.verif_high(&record) {@ sub=@state\.in_high_priority_pool = false;@self.verif_set_high(&record, false);@
+//@region foyer-memory/src/eviction/lru.rs :: impl~^impl<K, V, P> Eviction for Lru<K, V, P>/fn pop name=lru_pop whole=1 rules=assert-eq,option-or-else sub=@let state = unsafe \{ &mut \*record\.state\(\)\.get\(\) \};@@ subopt=@assert!\(!state\.link\.is_linked\(\)\);@@ sub=@if state\.in_high_priority_pool \{@if self.verif_high(&record) {@ sub=@state\.in_high_priority_pool = false;@self.verif_set_high(&record, false);@ subopt=@state\.is_pinned = (\w+);@self.verif_set_pinned(&record, \1);@ subopt=@\bstate\.is_pinned\b@self.verif_pinned(&record)@ subopt=@\bstate\.in_high_priority_pool\b@self.verif_high(&record)@
 //@head
     fn lru_pop(&mut self) -> (r: Option<QRec>)
         requires old(self).wf(),
